@@ -250,9 +250,10 @@ def correspondence(ctx):
         t = ic.gen_topology(rs, n, label, deco=False, bonds=bonds, spread=True)
         text = ic.render_topology(rs, t, deco=False)
         path = ic.write_text(text)
-        if k in (7, 20):          # two of them through the whole text model as well
+        big_in_k = label.startswith(("isolated_last", "connected", "cyclic_then")) and n > 1000
+        if k in (7, 13):          # two of them (500 / 501 atoms) through the whole text model as well
             add_file(text, path, "boundary:" + label.rsplit("_", 1)[0], ic.expected_topology(t))
-        else:
+        elif n <= 560 or big_in_k or not ctx.quick:   # the model's walk on unary nat is cubic: few big ones in quick
             mol = MoleculeTop(path)
             adj = [list(a.bonds) for a in mol]
             oc = ic.guarded(lambda: bool(are_connected(mol.atoms)))
